@@ -5,6 +5,10 @@
 //   san  : software path under ASan + trapping bounds checks, sub-alphabet only
 // Every result of the real implementation is (a) judged against the exact integer reference in
 // refs/C08_half_ref.hpp and (b) folded into a per-stream digest that check.py compares between sw and f16c.
+// Results of conversions whose VALUE the statement does not promise (finite double / long double / integer sources, casts
+// from half to integer types: mode casts and three streams of mode unary) take part in (b) only.
+// --fenv NAME runs a shard under a directed rounding mode (FE_*; -frounding-math builds) or with MXCSR.DAZ / MXCSR.FTZ set
+// (DAZ, FTZ, DAZ+FTZ; default builds); the expected bits never change.
 #include <xtl/xhalf_float.hpp>
 
 #include "report.hpp"
@@ -23,6 +27,7 @@
 #include <string>
 #include <vector>
 #include <unistd.h>
+#include <xmmintrin.h>   // _mm_getcsr / _mm_setcsr: MXCSR.DAZ / MXCSR.FTZ flavours (SSE is baseline on x86-64, also in the -mno-f16c build)
 
 #if defined(C08_EXPECT_F16C)
 #if (C08_EXPECT_F16C != 0) != (HALF_ENABLE_F16C_INTRINSICS != 0)
@@ -41,11 +46,14 @@
 #define C08_BUILD C08_PATH
 #endif
 
-// dynamic rounding mode owned by the harness (--fenv NAME): set once before the shard, restored at the end.
+// dynamic floating-point environment owned by the harness (--fenv NAME): set once before the shard, restored at the end.
+// NAME is a rounding direction (FE_UPWARD, FE_DOWNWARD, FE_TOWARDZERO; -frounding-math builds) or an MXCSR denormal flavour
+// (DAZ, FTZ, DAZ+FTZ: "denormals are zero" / "flush to zero", the state a -ffast-math object leaves behind; default builds).
 // The expected bits never depend on it; signatures, messages, replay arguments and counters carry it.
-static std::string g_sfx;         // "" or "[FE_UPWARD]"
-static std::string g_fenv_name;   // "" or "FE_UPWARD"
+static std::string g_sfx;         // "" or "[FE_UPWARD]" / "[DAZ]"
+static std::string g_fenv_name;   // "" or "FE_UPWARD" / "DAZ"
 static int g_fenv_mode = -1;
+static unsigned g_mxcsr_bits = 0; // 0 or the DAZ (0x0040) / FTZ (0x8000) bits the harness set
 static std::string BLD() { return std::string(C08_BUILD) + (g_fenv_name.empty() ? "" : " " + g_fenv_name); }
 static std::vector<std::string> RP(const std::string& fn, std::initializer_list<std::string> ops = {})
 {
@@ -113,7 +121,8 @@ static void crash_hook(const char* signame)
 {
     const char* fn = g_fn;
     const int n = g_nargs;
-    const bool isf = std::strncmp(fn, "float2half", 10) == 0, isd = std::strncmp(fn, "double2half", 11) == 0;
+    const bool isf = std::strncmp(fn, "float2half", 10) == 0;
+    const bool isd = std::strncmp(fn, "double2half", 11) == 0 || std::strncmp(fn, "longdouble2half", 15) == 0 || std::strncmp(fn, "int2half", 8) == 0 || std::strncmp(fn, "longlong2half", 13) == 0;
     std::vector<std::string> rp = RP(fn, {isd ? hx(g_a64, 16) : hx(g_a, isf ? 8 : 4)});
     std::string ops = rp[2];
     if (n >= 2) { rp.push_back(hx(g_b, 4)); ops += " " + rp.back(); }
@@ -131,12 +140,14 @@ enum
 {
     S_F2H, S_F2H_ASSIGN, S_H2F, S_H2F_CAST, S_H2D, S_H2D_CAST, S_SQRT, S_CLASS, S_NEG, S_FABS, S_HASH,
     S_ADD, S_SUB, S_MUL, S_DIV, S_CMP, S_COPYSIGN, S_FMA, S_FMAD,
-    S_NF_D_CAST, S_NF_D_CAST_RN, S_NF_D_CTOR, S_NF_D_ASSIGN, S_NF_F_CTOR, S_NF_F_ASSIGN, S_NF_F_CAST, S_MIXED, S_NSTREAM
+    S_NF_D_CAST, S_NF_D_CAST_RN, S_NF_D_CTOR, S_NF_D_ASSIGN, S_NF_F_CTOR, S_NF_F_ASSIGN, S_NF_F_CAST, S_MIXED,
+    S_F2H_CAST, S_H2I, S_H2LL, S_H2LD, S_I2H_CAST, S_I2H_CTOR, S_LL2H_CAST, S_LD2H_CAST, S_NSTREAM
 };
 static const char* const stream_name[S_NSTREAM] = {
     "float2half", "float2half_assign", "half2float", "half2float_cast", "half2double", "half2double_cast", "sqrt", "classify", "neg", "fabs", "hash",
     "add", "sub", "mul", "div", "cmp", "copysign", "fma", "fma_derived",
-    "double2half_cast", "double2half_cast_rn", "double2half_ctor", "double2half_assign", "float2half_nan_ctor", "float2half_nan_assign", "float2half_nan_cast", "mixed"};
+    "double2half_cast", "double2half_cast_rn", "double2half_ctor", "double2half_assign", "float2half_nan_ctor", "float2half_nan_assign", "float2half_nan_cast", "mixed",
+    "float2half_cast", "half2int_cast", "half2longlong_cast", "half2longdouble_cast", "int2half_cast", "int2half_ctor", "longlong2half_cast", "longdouble2half_cast"};
 
 struct stream_t
 {
@@ -178,7 +189,7 @@ static inline void emit1(int sid, uint64_t canon)
 }
 static inline size_t dump_width(int sid)
 {
-    return (sid == S_H2D || sid == S_H2D_CAST || sid == S_HASH) ? 8 : (sid == S_H2F || sid == S_H2F_CAST) ? 4 : 2;
+    return (sid == S_H2D || sid == S_H2D_CAST || sid == S_HASH || sid == S_H2LL || sid == S_H2LD) ? 8 : (sid == S_H2F || sid == S_H2F_CAST || sid == S_H2I) ? 4 : 2;
 }
 static void flush_streams()
 {
@@ -325,6 +336,9 @@ NOINL static float impl_h2f(uint16_t b) { return static_cast<float>(mk(b)); }
 NOINL static float impl_h2f_cast(uint16_t b) { return half_float::half_cast<float>(mk(b)); }
 NOINL static double impl_h2d(uint16_t b) { double d = mk(b); return d; }
 NOINL static double impl_h2d_cast(uint16_t b) { return half_float::half_cast<double>(mk(b)); }
+NOINL static int impl_h2i_cast(uint16_t b) { return half_float::half_cast<int>(mk(b)); }
+NOINL static long long impl_h2ll_cast(uint16_t b) { return half_float::half_cast<long long>(mk(b)); }
+NOINL static long double impl_h2ld_cast(uint16_t b) { return half_float::half_cast<long double>(mk(b)); }
 static inline uint16_t impl_add(H a, H b) { return bits(a + b); }
 static inline uint16_t impl_sub(H a, H b) { return bits(a - b); }
 static inline uint16_t impl_mul(H a, H b) { return bits(a * b); }
@@ -408,7 +422,8 @@ static __attribute__((noinline, cold)) void fail_f2h(const char* fn, uint32_t u,
                            ", round-to-nearest-even binary16 is " + h2s(expect) + " [" + cls + "]",
                   RP(fn, {hx(u, 8)}));
 }
-static inline void one_f2h(uint32_t u, bool count_nt)
+// with_cast: also the third float entry point half_cast<half>(float) (judged like the other two; own stream "float2half_cast")
+static inline void one_f2h(uint32_t u, bool count_nt, bool with_cast = false)
 {
     g_a = u;
     const float f = mkf(u);
@@ -426,6 +441,15 @@ static inline void one_f2h(uint32_t u, bool count_nt)
     emit(S_F2H_ASSIGN, href::canon16(r2), r2);
     if (g_verbose)
         std::printf("@@{\"t\":\"res\",\"fn\":\"float2half\",\"v\":\"%04x\",\"expect\":\"%04x\"}\n@@{\"t\":\"res\",\"fn\":\"float2half_assign\",\"v\":\"%04x\"}\n", href::canon16(r1), e, href::canon16(r2));
+    if (with_cast)
+    {
+        CUR("float2half_cast");
+        const uint16_t r3 = impl_f2h_cast(f);
+        ++g_eval;
+        if (!same_half(e, r3)) fail_f2h("float2half_cast", u, e, r3, ri);
+        emit(S_F2H_CAST, href::canon16(r3), r3);
+        if (g_verbose) std::printf("@@{\"t\":\"res\",\"fn\":\"float2half_cast\",\"v\":\"%04x\"}\n", href::canon16(r3));
+    }
 }
 // Fast form of the float sweep: the two entry points are separately compiled loops over a block (no inlining into the
 // judge, no common subexpression between constructor and assignment); the judge then runs over the block with its
@@ -505,6 +529,34 @@ static void mode_f2h(int shard, int nshard, bool samples)
     g_sub = 0;
 }
 
+// Float boundary alphabet FB (mode f2hb): sign x EVERY exponent field (0..255: float subnormals, every binade, inf/NaN) x
+// mantissa patterns {0, every single bit, every pair of bits, every run of low ones, every run of high ones, all ones minus
+// one bit}. It is a subset of the 2^32 sweep; it exists (a) to put the third float entry point half_cast<half>(float) under
+// the reference in every environment and (b) as the float -> half part of the MXCSR flavours, where a second, third and
+// fourth complete sweep would not fit the quick tier (the thorough tier repeats the complete sweep under DAZ+FTZ).
+static std::vector<uint32_t> float_mantissas()
+{
+    std::vector<uint32_t> v;
+    auto add = [&](uint32_t m) { m &= 0x7FFFFFu; for (uint32_t x : v) if (x == m) return; v.push_back(m); };
+    add(0);
+    for (int i = 0; i < 23; ++i) add(1u << i);
+    for (int i = 0; i < 23; ++i) for (int j = i + 1; j < 23; ++j) add((1u << i) | (1u << j));
+    for (int i = 1; i <= 23; ++i) { add((1u << i) - 1); add(~((1u << i) - 1)); }
+    for (int i = 0; i < 23; ++i) add(~(1u << i));
+    return v;
+}
+static void mode_f2hb()
+{
+    g_nargs = 1;
+    const std::vector<uint32_t> mf = float_mantissas();
+    long long n = 0;
+    for (uint32_t sgn = 0; sgn < 2; ++sgn)
+        for (uint32_t ex = 0; ex < 256; ++ex)
+            for (uint32_t m : mf) { one_f2h((sgn << 31) | (ex << 23) | m, false, true); ++n; }
+    vf::stat(std::string("float_boundary_alphabet_floats_" C08_BUILD) + g_sfx, n);
+    flush_streams();
+}
+
 // ------------------------------------------------------------------ unary functions over all halves
 static __attribute__((noinline, cold)) void fail_bool(const char* fn, uint16_t a, const char* what, long long expect, long long got)
 {
@@ -575,6 +627,36 @@ static void one_unary(uint16_t a, const char* only = nullptr)
     if (want("half2float_cast")) { CUR("half2float_cast"); judge_h2f("half2float_cast", S_H2F_CAST, a, impl_h2f_cast(a)); ASAN_CHECK("half2float_cast"); }
     if (want("half2double")) { CUR("half2double"); judge_h2d("half2double", S_H2D, a, impl_h2d(a)); ASAN_CHECK("half2double"); }
     if (want("half2double_cast")) { CUR("half2double_cast"); judge_h2d("half2double_cast", S_H2D_CAST, a, impl_h2d_cast(a)); ASAN_CHECK("half2double_cast"); }
+    // half -> int / long long / long double through half_cast: conversion entry points the statement does not give a value for
+    // (DESIGN.md: integer <-> half is not judged), but "bit-identical whether or not the F16C path is compiled in" applies to
+    // them as to every result: the results only go into their digest streams (software vs F16C, every environment).
+    if (want("half2int_cast"))
+    {
+        CUR("half2int_cast");
+        const int r = impl_h2i_cast(a);
+        ++g_eval;
+        emit1(S_H2I, uint32_t(r));
+        if (g_verbose) std::printf("@@{\"t\":\"res\",\"fn\":\"half2int_cast\",\"v\":\"%d\"}\n", r);
+    }
+    if (want("half2longlong_cast"))
+    {
+        CUR("half2longlong_cast");
+        const long long r = impl_h2ll_cast(a);
+        ++g_eval;
+        emit1(S_H2LL, uint64_t(r));
+        if (g_verbose) std::printf("@@{\"t\":\"res\",\"fn\":\"half2longlong_cast\",\"v\":\"%lld\"}\n", r);
+    }
+    if (want("half2longdouble_cast"))
+    {
+        CUR("half2longdouble_cast");
+        const long double r = impl_h2ld_cast(a);
+        ++g_eval;
+        // every half is a double: the result is folded as the double it equals (NaN canonical; 1 = "not a double", never expected)
+        const double rd = double(r);
+        const uint64_t c = (r != r) ? 0x7FF8000000000000ull : ((long double)rd == r ? dbits(rd) : 1ull);
+        emit1(S_H2LD, c);
+        if (g_verbose) std::printf("@@{\"t\":\"res\",\"fn\":\"half2longdouble_cast\",\"v\":\"%016llx\"}\n", (unsigned long long)c);
+    }
     if (want("sqrt"))
     {
         CUR("sqrt");
@@ -719,12 +801,13 @@ static inline void one_pair(uint16_t a, uint16_t b, const dec& da, const dec& db
     }
 }
 
-// set: 'q' quick, 'f' full, 's' sanitizer sub-alphabet
+// set: 'q' quick, 'f' full, 's' sanitizer sub-alphabet, 'm' A4096 x A4096
 static const std::vector<uint16_t>& row_of(char set, uint16_t a, bool& skip)
 {
     skip = false;
     if (set == 'f') return A_all;
     if (set == 's') { skip = !in512[a]; return A512; }
+    if (set == 'm') { skip = !in4096[a]; return A4096; }   // A4096 x A4096 (the MXCSR flavours)
     if (in512[a]) return A_all;
     if (in4096[a]) return A4096;
     return A512;
@@ -1087,18 +1170,163 @@ static void judge_nanfam(const char* fn, int sid, bool is_double, uint64_t in, u
     emit(sid, canon, got);
     if (g_verbose) std::printf("@@{\"t\":\"res\",\"fn\":\"%s\",\"v\":\"%04x\"}\n", fn, canon);
 }
-static void one_nan_double(uint64_t b, const char* only = nullptr)
+// Double sources in general. Exponent field all ones: the NaN/infinity oracle above. Finite doubles: the VALUE is not judged
+// (DESIGN.md: the statement promises correct rounding for float sources; the converting constructor documents double rounding
+// through float) - the result goes into the digest stream of its entry point, and the software and the F16C build must agree
+// on it bit for bit ("all results are bit-identical whether or not the F16C hardware path is compiled in"). Agreement with the
+// single correctly rounded value is counted as information.
+NOINL static uint16_t impl_ld2h_cast(long double d) { return bits(half_float::half_cast<H>(d)); }
+NOINL static uint16_t impl_i2h_cast(int v) { return bits(half_float::half_cast<H>(v)); }
+NOINL static uint16_t impl_i2h_ctor(int v) { H h(v); return bits(h); }
+NOINL static uint16_t impl_ll2h_cast(long long v) { return bits(half_float::half_cast<H>(v)); }
+static long long g_pathonly = 0;                 // results judged by the software-vs-F16C comparison only
+static long long g_dinfo_cnt[5] = {0, 0, 0, 0, 0}, g_dinfo_bad[5] = {0, 0, 0, 0, 0};
+static inline void judge_dbl(const char* fn, int sid, int slot, uint64_t in, bool special, uint16_t single, uint16_t got)
+{
+    if (special) { judge_nanfam(fn, sid, true, in, got); return; }
+    ++g_eval;
+    ++g_pathonly;
+    ++g_dinfo_cnt[slot];
+    g_dinfo_bad[slot] += (single != got);
+    emit(sid, href::canon16(got), got);
+    if (g_verbose) std::printf("@@{\"t\":\"res\",\"fn\":\"%s\",\"v\":\"%04x\",\"single_rounding\":\"%04x\"}\n", fn, href::canon16(got), single);
+}
+// with_ld: also half_cast<half>(long double) on the same value (every double is a long double)
+static void one_double(uint64_t b, const char* only = nullptr, bool with_ld = false)
 {
     g_a64 = b;
     g_a = uint32_t(b);
     g_nargs = 1;
     const double d = mkd(b);
+    const bool special = ((b >> 52) & 0x7FFu) == 0x7FFu;
+    const uint16_t single = special ? uint16_t(0) : href::from_f64_bits(b);
     auto want = [&](const char* fn) { return !only || std::strcmp(only, fn) == 0; };
-    if (want("double2half_cast")) { CUR("double2half_cast"); judge_nanfam("double2half_cast", S_NF_D_CAST, true, b, impl_d2h_cast(d)); ASAN_CHECK("double2half_cast"); }
-    if (want("double2half_cast_rn")) { CUR("double2half_cast_rn"); judge_nanfam("double2half_cast_rn", S_NF_D_CAST_RN, true, b, impl_d2h_cast_rn(d)); }
-    if (want("double2half_ctor")) { CUR("double2half_ctor"); judge_nanfam("double2half_ctor", S_NF_D_CTOR, true, b, impl_d2h_ctor(d)); }
-    if (want("double2half_assign")) { CUR("double2half_assign"); judge_nanfam("double2half_assign", S_NF_D_ASSIGN, true, b, impl_d2h_assign(d)); }
+    if (want("double2half_cast")) { CUR("double2half_cast"); judge_dbl("double2half_cast", S_NF_D_CAST, 0, b, special, single, impl_d2h_cast(d)); ASAN_CHECK("double2half_cast"); }
+    if (want("double2half_cast_rn")) { CUR("double2half_cast_rn"); judge_dbl("double2half_cast_rn", S_NF_D_CAST_RN, 1, b, special, single, impl_d2h_cast_rn(d)); }
+    if (want("double2half_ctor")) { CUR("double2half_ctor"); judge_dbl("double2half_ctor", S_NF_D_CTOR, 2, b, special, single, impl_d2h_ctor(d)); }
+    if (want("double2half_assign")) { CUR("double2half_assign"); judge_dbl("double2half_assign", S_NF_D_ASSIGN, 3, b, special, single, impl_d2h_assign(d)); }
+    if (only ? std::strcmp(only, "longdouble2half_cast") == 0 : with_ld)
+    {
+        CUR("longdouble2half_cast");
+        judge_dbl("longdouble2half_cast", S_LD2H_CAST, 4, b, special, single, impl_ld2h_cast(static_cast<long double>(d)));
+    }
 }
+// integer sources: value not judged (DESIGN.md), software vs F16C only
+static void one_int(long long v, const char* only = nullptr)
+{
+    g_a64 = uint64_t(v);
+    g_a = uint32_t(v);
+    g_nargs = 1;
+    auto want = [&](const char* fn) { return !only || std::strcmp(only, fn) == 0; };
+    auto put = [&](const char* fn, int sid, uint16_t got) {
+        ++g_eval;
+        ++g_pathonly;
+        emit(sid, href::canon16(got), got);
+        if (g_verbose) std::printf("@@{\"t\":\"res\",\"fn\":\"%s\",\"v\":\"%04x\"}\n", fn, href::canon16(got));
+    };
+    if (v >= -2147483647LL && v <= 2147483647LL)
+    {
+        if (want("int2half_cast")) { CUR("int2half_cast"); put("int2half_cast", S_I2H_CAST, impl_i2h_cast(int(v))); }
+        if (want("int2half_ctor")) { CUR("int2half_ctor"); put("int2half_ctor", S_I2H_CTOR, impl_i2h_ctor(int(v))); }
+    }
+    if (want("longlong2half_cast")) { CUR("longlong2half_cast"); put("longlong2half_cast", S_LL2H_CAST, impl_ll2h_cast(v)); }
+}
+
+// ------------------------------------------------------------------ cast family (mode casts): finite double / long double / integer sources
+// Anchors: every finite non-negative binary16 value V(h) (h = 0..0x7BFF), 2^16, and every rounding midpoint M(h) between h and
+// its successor (M(0) = 2^-25 is the underflow threshold, M(0x7BFF) = 65520 the overflow threshold), as exact doubles built
+// with integer arithmetic. Around every anchor, in units of the anchor's double ulp (offsets applied to the bit pattern):
+//   0 and +-(2^j + d), j = 0..J-1, d in {-1, 0, +1}        quick J = 44 (bit 41 is the half's guard bit for normal results,
+//                                                           bit 28 the float's: both double-rounding boundaries are inside)
+//   thorough: J = 52 and additionally +-(2^i + 2^j), i < j < 44
+// x both signs. These doubles are NOT floats (except offset 0 and the large offsets): a sweep of the 2^32 floats never sees them.
+// Exponent sweep: sign x every finite exponent field 0..2046 (double subnormals, the float underflow and overflow thresholds,
+// DBL_MAX) x 27 mantissa patterns. long double sources: every anchor x offsets {0, +-1, +-2^28, +-2^32}, and the exponent
+// sweep. Integer sources: every int in [-65600, 65600] and +-(2^k + d), k = 17..30 (int) / 17..62 (long long).
+static inline uint64_t dbl_bits_of(uint64_t n, int e2)   // n * 2^e2 as a (normal) double, n > 0 with at most 53 bits
+{
+    const int p = href::msb64(n);
+    return (uint64_t(p + e2 + 1023) << 52) | ((n << (52 - p)) & 0xFFFFFFFFFFFFFull);
+}
+static std::vector<uint64_t> cast_offsets(char set)
+{
+    std::vector<uint64_t> v;
+    auto add = [&](uint64_t o) { if (!o) return; for (uint64_t x : v) if (x == o) return; v.push_back(o); };
+    const int J = set == 't' ? 52 : 44;
+    for (int j = 0; j < J; ++j) { add((1ull << j) - 1); add(1ull << j); add((1ull << j) + 1); }
+    if (set == 't')
+        for (int i = 0; i < 44; ++i) for (int j = i + 1; j < 44; ++j) add((1ull << i) | (1ull << j));
+    return v;
+}
+static void mode_casts(char set, int shard, int nshard)
+{
+    const std::vector<uint64_t> off = cast_offsets(set);
+    const uint64_t ldoff[3] = {1, 1ull << 28, 1ull << 32};
+    long long nd = 0, nld = 0, nsweep = 0, nint = 0;
+    for (unsigned h = 0; h <= 0x7C00; ++h)
+    {
+        if (int(h % unsigned(nshard)) != shard) continue;
+        if (set == 's' && !in512[h] && h != 0x7C00) continue;
+        const dec d = DEC[h];
+        uint64_t anchor[2];
+        int na = 0;
+        anchor[na++] = (h == 0x7C00) ? dbl_bits_of(1, 16) : href::to_f64_bits(uint16_t(h));
+        if (h != 0x7C00) anchor[na++] = dbl_bits_of(2ull * d.m + 1, d.e - 1);
+        for (int k = 0; k < na; ++k)
+            for (uint64_t sgn = 0; sgn < 2; ++sgn)
+            {
+                const uint64_t B = anchor[k], S = sgn << 63;
+                one_double(S | B, nullptr, true);
+                ++nd; ++nld;
+                for (uint64_t o : off)
+                {
+                    one_double(S | (B + o));
+                    ++nd;
+                    if (B >= o) { one_double(S | (B - o)); ++nd; }
+                }
+                for (uint64_t o : ldoff)
+                {
+                    one_double(S | (B + o), "longdouble2half_cast");
+                    ++nld;
+                    if (B >= o) { one_double(S | (B - o), "longdouble2half_cast"); ++nld; }
+                }
+            }
+    }
+    if (shard == 0)
+    {
+        const uint64_t all = 0xFFFFFFFFFFFFFull;
+        const uint64_t pat[] = {0, 1, 2, all, all - 1, 1ull << 51, (1ull << 51) - 1, (1ull << 51) + 1, 1ull << 41, (1ull << 41) - 1, (1ull << 41) + 1,
+                                1ull << 42, (1ull << 42) - 1, (1ull << 42) + 1, 1ull << 28, (1ull << 28) - 1, (1ull << 28) + 1, 1ull << 29, (1ull << 29) - 1, (1ull << 29) + 1,
+                                1ull << 32, (1ull << 32) - 1, (1ull << 32) + 1, all ^ 0xFFFFFFFFull, all ^ ((1ull << 42) - 1), all ^ ((1ull << 29) - 1), 0x5555555555555ull};
+        for (uint64_t sgn = 0; sgn < 2; ++sgn)
+            for (uint64_t field = 0; field < 2047; ++field)
+                for (uint64_t m : pat) { one_double((sgn << 63) | (field << 52) | m, nullptr, true); ++nsweep; }
+        for (long long v = -65600; v <= 65600; ++v) { one_int(v); ++nint; }
+        for (int k = 17; k <= 62; ++k)
+            for (long long dd = -1; dd <= 1; ++dd) { one_int((1LL << k) + dd); one_int(-((1LL << k) + dd)); nint += 2; }
+    }
+    const std::string sfx = std::string(C08_BUILD) + g_sfx;
+    vf::stat("cast_family_doubles_" + sfx, nd);
+    vf::stat("cast_family_long_doubles_" + sfx, nld + nsweep);
+    if (nsweep) vf::stat("cast_family_exponent_sweep_doubles_" + sfx, nsweep);
+    if (nint) vf::stat("cast_family_integers_" + sfx, nint);
+    vf::stat("results_judged_by_path_equality_only_" + sfx, g_pathonly);
+    if (g_sfx.empty())
+    {
+        // information only, never a violation: agreement of the finite double results with the single correctly rounded value
+        static const char* const nm[5] = {"double2half_cast", "double2half_cast_rn", "double2half_ctor", "double2half_assign", "longdouble2half_cast"};
+        for (int i = 0; i < 5; ++i)
+        {
+            vf::stat(std::string("info_") + nm[i] + "_finite_sources_" C08_BUILD, g_dinfo_cnt[i]);
+            vf::stat(std::string("info_") + nm[i] + "_differs_from_single_rounding_" C08_BUILD, g_dinfo_bad[i]);
+        }
+    }
+    flush_streams();
+    if (shard == 0)
+        std::printf("@@{\"t\":\"xs\",\"k\":\"casts/0\",\"v\":\"half_cast<half>(double 0x3e60000000000001 = 2^-25 + 1 double ulp) == %s ; half_cast<half>(double 0x40effdffffffffff = 65520 - 1 double ulp) == %s ; half(double 0x3e60000000000001) == %s [" C08_BUILD "]\"}\n",
+                    h2s(impl_d2h_cast(mkd(0x3E60000000000001ull))).c_str(), h2s(impl_d2h_cast(mkd(0x40EFFDFFFFFFFFFFull))).c_str(), h2s(impl_d2h_ctor(mkd(0x3E60000000000001ull))).c_str());
+}
+
 static void one_nan_float(uint32_t b, const char* only = nullptr)
 {
     g_a = b;
@@ -1113,7 +1341,7 @@ static void mode_nanfam()
 {
     const std::vector<uint64_t> md = nan_mantissas(52), mf = nan_mantissas(23);
     for (uint64_t sgn = 0; sgn < 2; ++sgn)
-        for (uint64_t m : md) one_nan_double((sgn << 63) | (0x7FFull << 52) | m);
+        for (uint64_t m : md) one_double((sgn << 63) | (0x7FFull << 52) | m, nullptr, true);
     for (uint32_t sgn = 0; sgn < 2; ++sgn)
         for (uint64_t m : mf) one_nan_float((sgn << 31) | 0x7F800000u | uint32_t(m));
     vf::stat(std::string("nan_inf_family_doubles_" C08_BUILD) + g_sfx, 2 * (long long)md.size());
@@ -1281,14 +1509,10 @@ static int run_one(int argc, char** argv, int i)
     g_a = v[0]; g_b = v[1]; g_c = v[2];
     g_nargs = nops;
     if (fn.find('(') != std::string::npos) { if (!run_one_mixed(fn, v[0], v[1])) return 3; }
-    else if (fn.compare(0, 11, "double2half") == 0) one_nan_double(std::strtoull(argv[i + 1], nullptr, 0), fn.c_str());
+    else if (fn.compare(0, 11, "double2half") == 0 || fn == "longdouble2half_cast") one_double(std::strtoull(argv[i + 1], nullptr, 0), fn.c_str());
+    else if (fn == "int2half_cast" || fn == "int2half_ctor" || fn == "longlong2half_cast") one_int((long long)std::strtoull(argv[i + 1], nullptr, 0), fn.c_str());
     else if (fn.compare(0, 14, "float2half_nan") == 0) one_nan_float(v[0], fn.c_str());
-    else if (fn == "float2half" || fn == "float2half_assign")
-    {
-        one_f2h(v[0], true);
-        uint16_t r3 = impl_f2h_cast(mkf(v[0]));
-        std::printf("@@{\"t\":\"res\",\"fn\":\"float2half_cast\",\"v\":\"%04x\"}\n", href::canon16(r3));
-    }
+    else if (fn == "float2half" || fn == "float2half_assign" || fn == "float2half_cast") one_f2h(v[0], true, true);
     else if (fn == "add" || fn == "sub" || fn == "mul" || fn == "div") one_pair<true, false>(uint16_t(v[0]), uint16_t(v[1]), DEC[v[0] & 0xFFFF], DEC[v[1] & 0xFFFF]);
     else if (fn == "eq" || fn == "ne" || fn == "lt" || fn == "gt" || fn == "le" || fn == "ge" || fn == "cmp" || fn == "copysign" || fn == "hashpair")
         one_pair<false, true>(uint16_t(v[0]), uint16_t(v[1]), DEC[v[0] & 0xFFFF], DEC[v[1] & 0xFFFF]);
@@ -1302,6 +1526,25 @@ static bool set_fenv(const char* name)
 {
     const std::string n = name;
     int mode;
+    if (n == "DAZ" || n == "FTZ" || n == "DAZ+FTZ")
+    {
+        // MXCSR denormal flavours: bit 6 "denormals are zero" (denormal SSE operands read as zero), bit 15 "flush to zero"
+        // (denormal SSE results replaced by zero). Prior process state like the rounding direction (GCC's crtfastmath.o sets
+        // both in every process that links a -ffast-math object). Set once, verified on float and double arithmetic.
+        const unsigned bitsw = (n != "FTZ" ? 0x0040u : 0u) | (n != "DAZ" ? 0x8000u : 0u);
+        g_fenv_name = n;
+        g_sfx = "[" + n + "]";
+        g_mxcsr_bits = bitsw;
+        _mm_setcsr((_mm_getcsr() & ~0x8040u) | bitsw);
+        volatile float fden = mkf(0x00400000u), fbig = 16777216.0f, fmin = mkf(0x00800000u), fhalf = 0.5f;
+        volatile double dden = mkd(0x0008000000000000ull), dbig = 9007199254740992.0, dmin = mkd(0x0010000000000000ull), dhalf = 0.5;
+        const float r1 = fden * fbig, r2 = fmin * fhalf;      // denormal operand ; denormal result
+        const double r3 = dden * dbig, r4 = dmin * dhalf;
+        const bool daz = (bitsw & 0x0040u) != 0, ftz = (bitsw & 0x8000u) != 0;
+        if ((fbits(r1) == 0) != daz || (dbits(r3) == 0) != daz || (fbits(r2) == 0) != ftz || (dbits(r4) == 0) != ftz || (_mm_getcsr() & 0x8040u) != bitsw)
+            std::printf("@@{\"t\":\"referr\",\"v\":\"MXCSR flavour %s is not in effect after _mm_setcsr\"}\n", name);
+        return true;
+    }
     if (n == "FE_UPWARD") mode = FE_UPWARD;
     else if (n == "FE_DOWNWARD") mode = FE_DOWNWARD;
     else if (n == "FE_TOWARDZERO") mode = FE_TOWARDZERO;
@@ -1326,6 +1569,14 @@ static bool set_fenv(const char* name)
 }
 static void end_fenv()
 {
+    if (g_mxcsr_bits)
+    {
+        if ((_mm_getcsr() & 0x8040u) != g_mxcsr_bits)
+            vf::note("observation (not judged): MXCSR " + g_fenv_name + " was set at the start of the shard and the DAZ/FTZ bits are different at its end - something in the library changed them");
+        _mm_setcsr(_mm_getcsr() & ~0x8040u);
+        vf::stat("shards_run_under_" + g_fenv_name, 1);
+        return;
+    }
     if (g_fenv_mode < 0) return;
     if (std::fegetround() != g_fenv_mode)
         vf::note("observation (not judged): the dynamic rounding mode was " + g_fenv_name + " at the start of the shard and is different at its end - something in the library changed it");
@@ -1381,11 +1632,13 @@ int main(int argc, char** argv)
     if (mode == "f2h") mode_f2h(shard, nshard, shard == 0);
     else if (mode == "unary") mode_unary(set == "s" ? A4096 : A_all);
     else if (mode == "pairs") mode_pairs(set[0], shard, nshard);
-    else if (mode == "fma") mode_fma(alpha == "t" ? F1024 : alpha == "s" ? F64 : A512, shard, nshard);
+    else if (mode == "fma") mode_fma(alpha == "t" ? F1024 : alpha == "s" ? F64 : alpha == "m" ? F196 : A512, shard, nshard);
     else if (mode == "fmad") mode_fmad(alpha[0], shard, nshard);
-    else if ((mode == "info" || mode == "selftest") && g_fenv_mode >= 0 && g_fenv_mode != FE_TONEAREST) { std::fprintf(stderr, "double based modes run under FE_TONEAREST only\n"); return 3; }
+    else if ((mode == "info" || mode == "selftest") && ((g_fenv_mode >= 0 && g_fenv_mode != FE_TONEAREST) || g_mxcsr_bits)) { std::fprintf(stderr, "double based modes run in the default floating-point environment only\n"); return 3; }
     else if (mode == "nanfam") mode_nanfam();
-    else if (mode == "mixed") mode_mixed(shard, nshard, set == "s" ? A512 : A_all);
+    else if (mode == "casts") mode_casts(set[0], shard, nshard);
+    else if (mode == "f2hb") mode_f2hb();
+    else if (mode == "mixed") mode_mixed(shard, nshard, set == "s" ? A512 : set == "m" ? A4096 : A_all);
     else if (mode == "info") mode_info();
     else if (mode == "selftest") mode_selftest();
     else { std::fprintf(stderr, "unknown mode\n"); return 3; }
